@@ -25,6 +25,7 @@ type minimiser struct {
 	tries    int
 	kept     int
 	tmp      string
+	fresh    bool // evaluate every candidate in a fresh process (violations that depend on process history)
 }
 
 func cloneCase(c *Case) *Case {
@@ -41,7 +42,7 @@ func cloneCase(c *Case) *Case {
 
 func (m *minimiser) fails(c *Case) bool {
 	m.tries++
-	if raceEnabled {
+	if raceEnabled || m.fresh {
 		f := filepath.Join(m.tmp, fmt.Sprintf("cand-%d.json", m.tries))
 		out := f + ".out"
 		if saveJSON(f, c) != nil {
@@ -50,7 +51,11 @@ func (m *minimiser) fails(c *Case) bool {
 		defer os.Remove(f)
 		defer os.Remove(out)
 		rl := filepath.Join(m.tmp, fmt.Sprintf("race-%d", m.tries))
-		cmd := exec.Command(os.Args[0], "-test.run=^TestSim$", "-replay="+f, "-out="+out, "-racelog="+rl)
+		args := []string{"-test.run=^TestSim$", "-replay=" + f, "-out=" + out}
+		if raceEnabled {
+			args = append(args, "-racelog="+rl)
+		}
+		cmd := exec.Command(os.Args[0], args...)
 		cmd.Env = append(os.Environ(), "GORACE=log_path="+rl+" halt_on_error=0")
 		_ = cmd.Run()
 		if ms, _ := filepath.Glob(rl + ".*"); len(ms) > 0 {
@@ -414,6 +419,14 @@ func runMinimise(t *testing.T) {
 	}
 	size0 := caseSize(c)
 	best := m.run(c)
+	if m.kept == 0 && !raceEnabled && !m.expired() {
+		// nothing could be removed in this process: the violation may depend on what the process
+		// did before (state surviving between Compile calls); try again with a fresh process per candidate
+		m.fresh = true
+		if m.fails(c) {
+			best = m.run(c)
+		}
+	}
 	if err := saveJSON(*fOut, best); err != nil {
 		t.Fatal(err)
 	}
